@@ -1,4 +1,4 @@
-from vlib import Obl, Prog
+from vlib import Obl, Prog, borrow
 
 SMALL = ["fmtqfn.c", "fmt_ulong.c", "fmt_str.c", "scan_ulong.c", "auto_split.c",
          "stralloc_catb.c", "stralloc_opyb.c", "stralloc_pend.c", "stralloc_cats.c", "stralloc_opys.c",
@@ -9,7 +9,28 @@ def obligations(tier):
         grid = [{"L1": l} for l in range(1, 11)] + [{"L1": 7, "L2": 7}, {"L1": 8, "L2": 7, "TAIL": 1}, {"L1": 2, "L2": 8}]
     else:
         grid = [{"L1": l} for l in range(1, 15)] + [{"L1": a, "L2": b, "TAIL": t} for a in (1, 6, 7, 8, 9) for b in (1, 6, 7, 8, 9) for t in (0, 2)]
-    return [
+    spawn = Obl("spawn_commands", "spawn.c",
+        progs=[Prog("spawn.c", nomain=True)],
+        repo=["stralloc_catb.c", "stralloc_opyb.c", "stralloc_pend.c", "stralloc_cats.c", "stralloc_opys.c", "byte_copy.c",
+              "byte_rchr.c", "open_read.c", "substdio.c"],
+        lib=["ideal_substdio.c", "arena_stralloc.c"], defines={"ARENA_CAP": 48, "ARENA_SLOTS": 8},
+        sysrename=["read", "open", "fstat", "pipe", "close"],
+        grid=[{"NB": n} for n in ((4, 6, 8) if tier == "quick" else (4, 5, 6, 7, 8, 9, 10, 12))],
+        unwind_default=lambda p: p["NB"] + 3, unwind={"substdio_put": 60}, timeout=900,
+        functions=["spawn.c:getcmd", "spawn.c:docmd", "spawn.c:err", "spawn.c:okwrite", "open_read.c", "byte_rchr.c"],
+        cuts=["spawn() (qmail-lspawn.c/qmail-rspawn.c) -> observing stub", "coe -> no-op", "main loop, sigchld, report() outside this obligation"],
+        stubs=["read: the NB bytes in two chunks (symbolic split)", "open/fstat/pipe: may fail; fstat reports symbolic mode and owner",
+               "reports: ideal stream on descriptor 1"],
+        assumes=["command stream of exactly NB symbolic bytes holding at most one complete command; addressed slot free or in use (symbolic); "
+                 "conf-spawn (auto_spawn) set to 4 in the harness (delivery numbers 4..255 are then 'too big')"],
+        outside=["streams with several commands, commands longer than NB bytes, out-of-memory (flagabort) path"],
+        claim="every complete command is answered by exactly one error report carrying its delivery number or by one started delivery in its own free slot "
+              "inside the table; the message file is opened only if its id is digits and '/' starting with a digit; a delivery starts only for a regular file "
+              "owned by the queue user; incomplete commands have no effect; no descriptor leaks on refusals",
+        expect_witnesses=lambda p: ["incomplete_command_waits", "command_refused_with_report"] + (["delivery_started"] if p["NB"] >= 8 else []))
+    # the queue manager's side of the report channel (shared with C03)
+    shared = borrow("C03", ["del_dochan", "del_dochan_truncation"], tier)
+    return shared + [spawn,
         Obl("clean_requests", "clean.c",
             progs=[Prog("qmail-clean.c", main_as="clean_main", cut=["cleanuppid"])],
             repo=SMALL, lib=["ideal_substdio.c", "ideal_getln.c", "arena_stralloc.c"],
